@@ -1,3 +1,4 @@
+import RodbusModel.Props.C05Cancel
 import RodbusModel.Props.C05
 /-! axiom audit of every property theorem of Props/C05 -/
 #print axioms Rodbus.chunking_independent
@@ -25,3 +26,11 @@ import RodbusModel.Props.C05
 #print axioms Rodbus.no_loss_no_reread
 #print axioms Rodbus.Mbap.run_spec
 #print axioms Rodbus.Mbap.constants_ok
+#print axioms Rodbus.Cancel.mbap_blocked_begin
+#print axioms Rodbus.Cancel.mbap_cancel_from
+#print axioms Rodbus.Cancel.cancel_safe_mbap
+#print axioms Rodbus.Cancel.rtu_cancel_from
+#print axioms Rodbus.Cancel.cancel_safe_rtu
+#print axioms Rodbus.Cancel.deliveriesC_cut
+#print axioms Rodbus.Cancel.readerRunC_eq
+#print axioms Rodbus.Cancel.session_cancel_safe
